@@ -66,6 +66,20 @@ Definition required : list access := [
 Definition accesses_ok (t : list access) : bool :=
   forallb access_ok t && forallb (fun q => existsb (access_eqb q) t) required.
 
+(** session accessors: only the catalog (whose schema cache is session state by design) and the DB-API cursor may be
+    cached; every accessor that hands out a builder with state (`read`), a per-call wrapper (`udf`) or draws a fresh
+    value must be a plain property, so that nothing an earlier call chain set stays in force for a later one *)
+Definition accessor_ok (a : string * string) : bool :=
+  let '(n, k) := a in
+  String.eqb k "property" ||
+  (String.eqb k "cached_property" && one_of n ["_BaseSession.catalog"; "_BaseSession._cur"; "DuckDBSession._cur"]).
+
+Definition accessors_ok (t : list (string * string)) : bool :=
+  forallb accessor_ok t &&
+  forallb (fun n => existsb (fun a => String.eqb (fst a) n && String.eqb (snd a) "property") t)
+          ["_BaseSession.read"; "_BaseSession._random_id"; "_BaseSession._random_branch_id";
+           "_BaseSession._random_sequence_id"; "_BaseSession._auto_incrementing_name"].
+
 (** what [accesses_ok] buys, stated: every write to an id registry is an [add] made by its own property, every write
     to the alias map an [append] made by [_add_alias_to_mapping] -- the registries are append-only *)
 Lemma accesses_ok_append_only t : accesses_ok t = true ->
